@@ -357,6 +357,25 @@ fn main() {
                         27 => call_ls("append_line", &a, &[["solo"].as_slice(), [""].as_slice()][rng.gen_range(0..2)]),
                         28 => call_b("chmod_b", &a, "", 0, 0, ["f:u+x", "a:go-rwx", "d:a=rx,f:a=r", "a:a+w"][rng.gen_range(0..4)], ["s", "sR", "sF"][rng.gen_range(0..3)]),
                         29 => call_b("chown_b", &a, "", rng.gen_range(1..5), rng.gen_range(1..5), "", ["u", "g", "o", "oR", "uF"][rng.gen_range(0..5)]),
+                        34 => {
+                            // a builder program: random sequence of builder calls, judged by its final options (last setter wins)
+                            let n = rng.gen_range(1..5);
+                            let modes = [0o755u32, 0o700, 0o640, 0o444];
+                            match rng.gen_range(0..3) {
+                                0 => {
+                                    let steps: Vec<(u8, u32)> = (0..n).map(|_| { let k = rng.gen_range(1..10u8); (k, if k == 7 { rng.gen_range(0..3) } else { modes[rng.gen_range(0..4)] }) }).filter(|s| s.0 != 4).collect();
+                                    call_seq("chmod_seq", &a, "", &steps)
+                                },
+                                1 => {
+                                    let steps: Vec<(u8, u32)> = (0..n).map(|_| (rng.gen_range(1..7u8), rng.gen_range(1..5u32) * 256 + rng.gen_range(1..5u32))).filter(|s| s.0 != 4).collect();
+                                    call_seq("chown_seq", &a, "", &steps)
+                                },
+                                _ => {
+                                    let steps: Vec<(u8, u32)> = (0..n).map(|_| (rng.gen_range(1..4u8), modes[rng.gen_range(0..4)])).collect();
+                                    call_seq("copy_seq", &a, &b, &steps)
+                                },
+                            }
+                        },
                         30 | 31 | 32 | 33 => {
                             // handle operations on one of two slots (stale handles included: the path may be removed or
                             // replaced by something else while the handle is open)
